@@ -409,3 +409,158 @@ def special_elements(w):
                     l.append((nm, payload(o)))
         out[name] = l
     return out
+
+
+# ---------------------------------------------------------------------------------------
+# C04: the outbound message hides the password
+# ---------------------------------------------------------------------------------------
+def gen_C04(w, tier):
+    r = w.rng
+    out = []
+    big = tier == "thorough"
+    # toy groups: for each password class, as x ranges over [0,q) the message ranges over the whole
+    # subgroup, each element exactly once
+    for name, ps in w.ps.items():
+        if not ps.toy or ps.base:
+            continue
+        if ps.q > 300 and not big:
+            continue
+        # the subgroup, enumerated through the implementation's own Base.scalarmult
+        sub = set()
+        be = w.eid()
+        w.im.run("e.base %d %d" % (be, ps.gid))
+        for k in range(ps.q):
+            t = w.eid()
+            sub.add(payload(w.im.run("e.smul %d %d %d" % (t, be, k))))
+        for pw in toy_passwords(w, ps):
+            for side in ("A", "B", "S"):
+                sc = w.scenario("C04/%s/%s/%s" % (name, hx(pw), side), ("toy-exhaustive", "side:" + side))
+                idxs = []
+                for x in range(ps.q):
+                    ids = (r.choice(IDS), r.choice(IDS))
+                    s_ = sc.new(side, ps, pw, ids[0], ids[1], w.entropy_for(ps, x), EXACT)
+                    sc.start(s_, EXACT)
+                    idxs.append(len(sc.lines) - 1)
+                sc.meta.update(idxs=idxs, sub=sub, q=ps.q, kind=ps.kind)
+
+                def pred(io, sc):
+                    msgs = [payload(io[i]) for i in sc.meta["idxs"]]
+                    if any(m is None for m in msgs):
+                        return "start() raised for some scalar"
+                    els = [m[1:] for m in msgs]
+                    if len(set(els)) != sc.meta["q"]:
+                        return "message elements are not pairwise distinct over x in [0,q): %d distinct of %d" % (len(set(els)), sc.meta["q"])
+                    if set(els) != sc.meta["sub"]:
+                        return "the set of message elements is not the whole prime-order subgroup"
+                    return None
+                sc.pred = pred
+                out.append(sc)
+    # shipped groups: msg - w*M == x*G, and the identity strings never influence the message
+    for name, ps in w.ps.items():
+        if ps.toy or ps.base:
+            continue
+        reps = (8 if ps.kind == "ed" else 3) * (8 if big else 1)
+        seeds = ps.seeds or (b"M", b"N", b"symmetric")
+        for i in range(reps):
+            side = "ABS"[i % 3]
+            x = w.scalar(ps)
+            pw = w.password()
+            sc = w.scenario("C04/%s/%d" % (name, i), ("identity", "set:" + name, "side:" + side))
+            s1 = sc.new(side, ps, pw, b"", b"", w.entropy_for(ps, x))
+            s2 = sc.new(side, ps, pw, r.choice(IDS[1:]), r.choice(IDS[1:]), w.entropy_for(ps, x))
+            o1, o2 = sc.start(s1), sc.start(s2)
+            m = payload(o1)
+            res = {}
+            if m is not None and not (ps.kind == "ed" and ed_identity(m)):
+                em, eM, eB, t1, t2, t3 = (w.eid() for _ in range(6))
+                sc.do("e.dec %d %d %s" % (em, ps.gid, hx(m[1:])))
+                sc.do("e.arb %d %d %s" % (eM, ps.gid, hx(seeds["ABS".index(side)])))
+                wv = pwscalar(w, ps, pw)
+                sc.do("e.smul %d %d %d" % (t1, eM, -wv))
+                sc.do("e.add %d %d %d" % (t2, em, t1))
+                sc.do("e.base %d %d" % (eB, ps.gid))
+                sc.do("e.smul %d %d %d" % (t3, eB, x))
+                res["eq"] = sc.do("e.eq %d %d" % (t2, t3))
+            sc.meta.update(o1=o1, o2=o2, res=res)
+
+            def pred2(io, sc):
+                if sc.meta["o1"] != sc.meta["o2"]:
+                    return "identity strings influenced the outbound message"
+                if sc.meta["res"].get("eq", "ok true") != "ok true":
+                    return "message - w*M != x*G"
+                return None
+            sc.pred = pred2
+            out.append(sc)
+    return out
+
+
+# ---------------------------------------------------------------------------------------
+# C06: side confusion and reflection
+# ---------------------------------------------------------------------------------------
+def gen_C06(w, tier):
+    r = w.rng
+    out = []
+    big = tier == "thorough"
+    sets = [w.ps[k] for k in ("ed", "1024", "toy2039_1019_4", "toyed389", "2048", "3072") if k in w.ps]
+    if not big:
+        sets = sets[:4]
+    for ps in sets:
+        # a valid peer element (so that only the side byte decides)
+        peer = {}
+        for side in "ABS":
+            t = w.scenario("C06/peer", ())
+            p_ = t.new(side, ps, b"pw", b"", b"", w.entropy_for(ps, 7), NONE)
+            peer[side] = payload(t.start(p_, NONE))
+        for side in "ABS":
+            for restored in (False, True):
+                values = list(range(256)) + [None]
+                if ps.kind == "int" and not ps.toy and not big:
+                    values = [0x41, 0x42, 0x53, 0x00, 0x43, 0x61, 0xff, None]
+                sc = w.scenario("C06/%s/%s/%s" % (ps.name, side, "restored" if restored else "fresh"),
+                                ("set:" + ps.name, "side:" + side, "restored" if restored else "fresh"))
+                rec = []
+                for v in values:
+                    s_ = sc.new(side, ps, b"pw", b"", b"", w.entropy_for(ps, 5))
+                    own = payload(sc.start(s_))
+                    if restored:
+                        s_ = sc.cycle(s_, side, ps)
+                    body = peer["B" if side == "A" else "A" if side == "B" else "S"][1:]
+                    msg = b"" if v is None else bytes([v]) + body
+                    o = sc.finish(s_, msg)
+                    rec.append((v, o))
+                    # reflection: own element under every label
+                    if v in (0x41, 0x42, 0x53):
+                        s2 = sc.new(side, ps, b"pw", b"", b"", w.entropy_for(ps, 5))
+                        own = payload(sc.start(s2))
+                        if restored:
+                            s2 = sc.cycle(s2, side, ps)
+                        o2 = sc.finish(s2, bytes([v]) + own[1:])
+                        rec.append(("reflect", v, o2))
+                sc.meta.update(rec=rec, side=side)
+
+                def pred(io, sc):
+                    side = sc.meta["side"]
+                    peer_b = {"A": 0x42, "B": 0x41, "S": 0x53}[side]
+                    for t in sc.meta["rec"]:
+                        if t[0] == "reflect":
+                            _, v, o = t
+                            if o.startswith("ok"):
+                                return "reflected own element under label %#x returned a key" % v
+                            if v == peer_b and o != "raise:ReflectionThwarted":
+                                return "own element under the accepted label did not raise ReflectionThwarted: %s" % o
+                            continue
+                        v, o = t
+                        if v == peer_b:
+                            if not o.startswith("ok"):
+                                return "valid peer message refused: %s" % o
+                            continue
+                        if o.startswith("ok"):
+                            return "finish() returned a key for side byte %r" % (v,)
+                        if side in "AB" and o != "raise:OffSides":
+                            return "A/B instance: side byte %r raised %s, not OffSides" % (v, o)
+                        if side == "S" and v in (0x41, 0x42) and o != "raise:OffSides":
+                            return "Symmetric instance: side byte %r raised %s, not OffSides" % (v, o)
+                    return None
+                sc.pred = pred
+                out.append(sc)
+    return out
